@@ -1,6 +1,7 @@
-(* C09 -- the Shapley oracle counts coalitions exactly.  Statements only (see Proofs/OracleProofs.v). *)
+(* C09 -- the Shapley oracle counts coalitions exactly.  Statements only (proofs in Proofs/OracleProofs.v and
+   Proofs/OracleExact.v). *)
 From Coq Require Import List Arith Bool.
-From DS Require Import Model.ADD Spec.Count Model.Oracle Proofs.OracleProofs.
+From DS Require Import Model.ADD Spec.Count Model.Oracle Proofs.OracleProofs Proofs.OracleExact.
 Import ListNotations.
 
 (* the counts of the specification over all tallies always add up to 2^(units-1) *)
@@ -8,4 +9,38 @@ Theorem C09_spec_total : forall p target t1 t2,
   sum_nat (count_spec p target t1 t2) = 2 ^ (p_units p - 1).
 Proof. exact count_spec_total. Qed.
 
+(* The model of ShapleyOracle (per-boundary diagrams built by increments at the compiled row locations and by
+   invalidating value 0 of the boundary row's units; query = restrict the target to 1 / 0, sum, +1 per present unit,
+   modelcount) returns EXACTLY the histogram of the counting specification, for every problem (any hypergraph,
+   labels, distances, K, class count), every target and boundary pair, and every compiled diagram d that
+     - is well formed (okd: edge values of the right length; reachable nodes in range and live; last children 0),
+     - has zero edge values and the units in provenance order, one level per unit,
+     - comes with row locations that are valid: for every assignment exactly one location of a row lies on the
+       assignment's path when the row is present, and none otherwise.
+   At least two units (the one-unit case is finding F12: the code raises). *)
+Theorem C09_oracle_exact : forall p d locs target t1 t2,
+  d_type d = p_type p -> okd d -> zero_adders d -> d_units d = seq 0 (p_units p) -> length (d_levels d) = p_units p ->
+  (forall x, length x = p_units p -> forall r, r < length (p_rows p) ->
+     hits d x (nth r locs []) = if row_present (nth r (p_rows p) []) x then 1 else 0) ->
+  (forall r u, In u (nth r (p_rows p) []) -> u < p_units p) ->
+  2 <= p_units p -> target < p_units p ->
+  oracle_query p d locs target t1 t2 = Some (count_spec p target t1 t2).
+Proof. exact oracle_exact. Qed.
+
+(* compile() in the chain case (every row needs exactly one unit: one-unit-per-row and map/fork pipelines) produces
+   such a diagram: the oracle is exact with no further hypothesis *)
+Theorem C09_oracle_chain_exact : forall p target t1 t2,
+  (forall r, r < length (p_rows p) -> exists u, nth r (p_rows p) [] = [u] /\ u < p_units p) ->
+  2 <= p_units p -> target < p_units p ->
+  oracle_query p (fst (compile_chain (p_type p) (p_units p) (map (fun r => (hd 0 r, true)) (p_rows p))))
+                 (snd (compile_chain (p_type p) (p_units p) (map (fun r => (hd 0 r, true)) (p_rows p)))) target t1 t2
+  = Some (count_spec p target t1 t2).
+Proof. exact oracle_chain_exact. Qed.
+
+(* non-vacuity: three units, four rows, two classes, K = 2; the answer has at least two non-zero counts *)
+Example C09_instance : oracle_chain_instance_statement.
+Proof. exact oracle_chain_instance. Qed.
+
 Print Assumptions C09_spec_total.
+Print Assumptions C09_oracle_exact.
+Print Assumptions C09_oracle_chain_exact.
